@@ -961,11 +961,11 @@ impl Gen {
                 }
                 Step::new(&roles.engine_owner, Op::EngineConfig { owner: Some(next_holder(&roles.engine_owner)), insurance_fund: None, fee_pool: fp, initial: i, maintenance: m, partial: p, liq_fee: l })
             }
-            19 => Step::new(&roles.pauser, Op::UpdatePauser { pauser: next_holder(&roles.pauser) }),
-            20 => Step::new(&roles.vamm_owner[v], Op::VammOwner { vamm: v, owner: next_holder(&roles.vamm_owner[v]) }),
-            21 => Step::new(&roles.if_owner, Op::IfOwner { owner: next_holder(&roles.if_owner) }),
-            22 => Step::new(&roles.fp_owner, Op::FpOwner { owner: next_holder(&roles.fp_owner) }),
-            _ => Step::new(&roles.pf_owner, Op::PfOwner { owner: next_holder(&roles.pf_owner) }),
+            19 => Step::new(&roles.pauser, Op::UpdatePauser { pauser: next_holder_or_nobody(rng, &roles.pauser) }),
+            20 => Step::new(&roles.vamm_owner[v], Op::VammOwner { vamm: v, owner: next_holder_or_nobody(rng, &roles.vamm_owner[v]) }),
+            21 => Step::new(&roles.if_owner, Op::IfOwner { owner: next_holder_or_nobody(rng, &roles.if_owner) }),
+            22 => Step::new(&roles.fp_owner, Op::FpOwner { owner: next_holder_or_nobody(rng, &roles.fp_owner) }),
+            _ => Step::new(&roles.pf_owner, Op::PfOwner { owner: next_holder_or_nobody(rng, &roles.pf_owner) }),
         }
     }
 
@@ -1335,6 +1335,16 @@ fn sym_addr(r: &Runner, a: &str) -> String {
         "@engine".into()
     } else {
         a.to_string()
+    }
+}
+
+/// a hand-over to nobody now and then: the empty address (refused by address validation today; a contract that took it
+/// as a renouncement would have to leave the role with nobody at all)
+fn next_holder_or_nobody(rng: &mut Rng, cur: &str) -> String {
+    if rng.chance(1, 8) {
+        String::new()
+    } else {
+        next_holder(cur)
     }
 }
 
